@@ -1,5 +1,6 @@
 import MsiModel.PkgApi
 import MsiModel.WireExpr
+import MsiModel.QueryFmt
 /-
 Session interpreter of the driver: executes the package-level requests of the line
 protocol on the model and renders replies in the canonical form shared with the harness.
@@ -285,6 +286,30 @@ def step (st : State) (toks : List String) : Option (State × String) :=
         | .ok s2 => ({ st with pkg := some s2 }, "ok")
         | .err k => ({ st with pkg := none }, "err " ++ k.toString)
         | .panic _ => ({ st with pkg := none }, "panic"))
+  | "fmtq" :: "select" :: rest =>
+    match parseJoin.parseSelect rest with
+    | some (q, []) => some (st, match QueryFmt.fmtSelect q with | some t => Wire.hexOfStr t | none => "unmodelled")
+    | _ => none
+  | "fmtq" :: "insert" :: t :: k :: rest =>
+    match Wire.strOfHex t, k.toNat? with
+    | some tn, some kn =>
+      (parseRowsAux kn rest []).map fun rows =>
+        (st, match QueryFmt.fmtInsert tn rows with | some x => Wire.hexOfStr x | none => "unmodelled")
+    | _, _ => none
+  | "fmtq" :: "update" :: t :: k :: rest =>
+    match Wire.strOfHex t, k.toNat? with
+    | some tn, some kn =>
+      match parseAssign kn rest [] with
+      | some (ups, r1) =>
+        match parseCond r1 with
+        | some (cond, []) => some (st, match QueryFmt.fmtUpdate tn ups cond with | some x => Wire.hexOfStr x | none => "unmodelled")
+        | _ => none
+      | none => none
+    | _, _ => none
+  | "fmtq" :: "delete" :: t :: rest =>
+    match Wire.strOfHex t, parseCond rest with
+    | some tn, some (cond, []) => some (st, match QueryFmt.fmtDelete tn cond with | some x => Wire.hexOfStr x | none => "unmodelled")
+    | _, _ => none
   | ["snapshot"] => some (withPkg st fun s => (st, snapshot s))
   | ["raw"] => some (withPkg st fun s => (st, raw s))
   | _ => none
